@@ -339,6 +339,7 @@ func (h *histGen) values() []*model.Value {
 }
 
 func runC10(c *Ctx) {
+	runC10Decoder(c)
 	n := c.N(16000, 300000)
 	c.Parallel(n, func(w, i int) {
 		cs := c.Seed*10_000_019 + int64(i)
